@@ -73,8 +73,9 @@ type Violation struct {
 }
 
 type delivery struct {
-	block *wire.MsgBlock
-	tx    *wire.MsgTx
+	block  *wire.MsgBlock
+	tx     *wire.MsgTx
+	inChan bool // currently also sitting in the wallet's own channel
 }
 
 // fakeServer implements masswallet.Server over the simulated node.
@@ -607,7 +608,89 @@ func (inst *Instance) StartMoving(t *Tape, maxEnv int) error {
 //
 //go:norace
 func (inst *Instance) inject(d delivery) {
-	if inst.W.LogOn {
+	inst.injectQ(d, false)
+}
+
+// mirror puts the newest queued notification into the wallet's own buffered
+// channel right away, as the node's chain goroutine does: the channels (and
+// their lengths, which wallet code may look at) hold everything that is
+// announced and not yet taken. The scheduler still decides which ready case
+// the handler's select takes: right before it releases the handler from its
+// select gate it empties both channels and leaves only the chosen notification
+// (or none, for the suspend hand-shake), and puts the others back, in order,
+// once the handler has taken it (Sched.Do). No other goroutine runs in
+// between, so nobody but the handler's select sees the emptied channels.
+//
+//go:norace
+func (inst *Instance) mirror() {
+	if inst.WM == nil || len(inst.Pending) == 0 {
+		return
+	}
+	d := &inst.Pending[len(inst.Pending)-1]
+	inst.pushReal(d)
+}
+
+//go:norace
+func (inst *Instance) pushReal(d *delivery) {
+	qb, qt := inst.WM.SimNotificationQueues()
+	if qb == nil || d.inChan {
+		return
+	}
+	// (a full channel would block the node; the simulator holds the
+	// notification back instead and retries at the next refill)
+	if d.block != nil && len(qb) >= cap(qb)-1 {
+		return
+	}
+	if d.tx != nil && len(qt) >= cap(qt)-1 {
+		return
+	}
+	inst.injectQ(*d, true)
+	d.inChan = true
+}
+
+// drainReal empties both notification channels (their content is mirrored in
+// Pending).
+//
+//go:norace
+func (inst *Instance) drainReal() {
+	if inst.WM == nil {
+		return
+	}
+	qb, qt := inst.WM.SimNotificationQueues()
+	if qb == nil {
+		return
+	}
+	raceOff()
+	for more := true; more; {
+		select {
+		case <-qb:
+		case <-qt:
+		default:
+			more = false
+		}
+	}
+	raceOn()
+	for i := range inst.Pending {
+		inst.Pending[i].inChan = false
+	}
+}
+
+// refillReal puts every pending notification back into the channels, oldest
+// first (per-kind order is what the channels preserve).
+//
+//go:norace
+func (inst *Instance) refillReal() {
+	if inst.WM == nil || inst.Dead || inst.Stopped {
+		return
+	}
+	for i := range inst.Pending {
+		inst.pushReal(&inst.Pending[i])
+	}
+}
+
+//go:norace
+func (inst *Instance) injectQ(d delivery, quiet bool) {
+	if inst.W.LogOn && !quiet {
 		if d.block != nil {
 			inst.W.Logf("  deliver to %s: block h=%d %s (wallet synced=%d, node tip=%d)", inst.Name, d.block.Header.Height, d.block.BlockHash().String()[:10], inst.syncedQuiet(), inst.W.Node.Tip().Height)
 		} else {
@@ -636,6 +719,7 @@ func (w *World) Announce(b *BlockRec) {
 				panic(err)
 			}
 			inst.Pending = append(inst.Pending, delivery{block: blk.MsgBlock()})
+			inst.mirror()
 		}
 	}
 }
@@ -649,6 +733,7 @@ func (w *World) AnnounceTx(tx *wire.MsgTx) {
 		if inst.listening() {
 			cp := *tx
 			inst.Pending = append(inst.Pending, delivery{tx: &cp})
+			inst.mirror()
 		}
 	}
 }
